@@ -87,7 +87,8 @@ def gen_case_dag(seed, tier, index=0, restart_bias=False):
     if fast:
         knobs['launch_delay'] = 0.0
     return {'comps': comps, 'stage_opts': stage_opts, 'plan': plan, 'hook': hook, 'hook_file': use_hook_file,
-            'knobs': knobs, 'sched_seed': rr.getrandbits(48)}
+            'knobs': knobs, 'sched_seed': rr.getrandbits(48), 'pauses': common.gen_pauses(rr, 0.1),
+            'slow_wake_p': rr.choice([0.0, 0.3])}
 
 
 def gen_case_observer_race(seed, tier, index=0):
@@ -211,6 +212,14 @@ def gen_case_restart(seed, tier, index=0):
 
 
 def shrink_candidates(case):
+    if case.get('pauses'):
+        c = copy.deepcopy(case)
+        c['pauses'] = []
+        yield c
+    if case.get('pause_on_condition'):
+        c = copy.deepcopy(case)
+        c['pause_on_condition'] = None
+        yield c
     comps = case['comps']
     # drop a component that nobody references (and fix nothing else)
     referenced = set()
@@ -849,6 +858,8 @@ def run_case(case, schedule, opts):
             ctx.exp = exp
             controller, comps = R.new_controller(exp)
             ctx.controller = controller
+            if case.get('pauses'):
+                R.start_operator(case['pauses'], slow_wake_p=case.get('slow_wake_p', 0.0))
             nodes = node_table(controller)
             try:
                 R.run_stages(exp, controller, REC, outcomes)
